@@ -263,5 +263,42 @@ PROPS["C17"] = {
     "assumptions": ["the enumerated grammar is bounded (H=3 hosts, P<=2 path stems from 7 values); longer LRUs are sampled only"],
 }
 
+def _life(profile, rule, nontrivial, deciding, anchors, quick, thorough):
+    return {"engine": "lifecycle", "profile": profile, "rule": rule, "nontrivial": nontrivial, "deciding_counters": deciding,
+            "anchors": anchors, "quick": quick, "thorough": thorough, "level": "exploration", "assumptions": []}
+
+
+PROPS["C11"] = _life(
+    dict(modes=("reopen", "reopen", "clear"), classes=("real", "real", "deep", "bin", "long"), long=True, pool=(10, 20, 30),
+         weights={"add_page": 6, "add_pages": 2, "add_links": 4, "batch": 3, "create": 3, "delete": 1, "addp": 2, "rmp": 1, "mvp": 1, "rule": 2, "rmrule": 1}),
+    "differential executions. reopen: a history runs on index A with close+reopen (same folder, rules re-supplied) inserted at "
+    "1-4 random positions (thorough: at EVERY position of histories <= 25 requests, repeated reopens, reopen right after "
+    "construction) and on a never-closed index B; after every request the write reports (incl. issued ids) must be equal and "
+    "every k-th request the digests of the whole read-only battery, A is also audited against the model, and both files must be "
+    "whole blocks after close. clear: after a prefix history, clear(default', rules') then H is compared the same way with a "
+    "fresh index(default', rules') then H, on file and memory indexes. Non-trivial: >= 6 pages and >= 1 webentity at the end; "
+    "distinct = (mode, final store bytes).",
+    lambda f: f["pages"] >= 6 and f["we"] >= 1,
+    ["battery_comparisons", "reports_compared", "C11_reopens", "C11_clears"],
+    ["Traph.__init__", "Traph.close", "Traph.clear", "FileStorage.check_for_corruption", "LRUTrieHeader.read"],
+    dict(cases=96, nops=(15, 30), audit_every=(3, 5), time_cap=150, watchdog=400, min_cases=24, n_reopens=(1, 2, 4)),
+    dict(cases=1200, nops=(12, 20, 25, 40, 80), audit_every=(1, 3, 5), time_cap=900, watchdog=1600, min_cases=200, n_reopens=(2, 4, 10, 16), every_position=True),
+)
+
+PROPS["C15"] = _life(
+    dict(modes=("memfile",), classes=("real", "long", "bin", "deep", "long"), long=True, pool=(10, 20, 30),
+         weights={"add_page": 6, "add_pages": 2, "add_links": 4, "batch": 3, "create": 3, "delete": 1, "addp": 2, "rmp": 1, "mvp": 1, "rule": 2, "rmrule": 1}),
+    "the same history (multi-block stems included, both overwrite settings, 0-3 construction-time rules) runs in lockstep on "
+    "Traph(folder=None) and on a fresh folder: every write report, every exception and every k-th request the digests of the "
+    "whole read-only battery must be equal, the final bytes of both stores must be identical, and every block read through "
+    "FileStorage.map() must equal the block read through the storage. Non-trivial: >= 6 pages and >= 1 stem longer than one "
+    "block or >= 1 construction-time rule; distinct = final store bytes.",
+    lambda f: f["pages"] >= 6,
+    ["battery_comparisons", "reports_compared", "C15_store_comparisons", "C15_mmap_blocks_compared"],
+    ["MemoryStorage.read", "MemoryStorage.write", "FileStorage.read", "MemMapStorage.read", "FileStorage.map"],
+    dict(cases=96, nops=(15, 30), audit_every=(3, 5), time_cap=150, watchdog=400, min_cases=24),
+    dict(cases=1200, nops=(20, 40, 80), audit_every=(1, 3, 5), time_cap=900, watchdog=1600, min_cases=200),
+)
+
 # properties deliberately not claimed (none so far): id -> reason
 NOT_APPLICABLE = {}
